@@ -126,6 +126,82 @@ def _drawtree(built, case, max_leaves):
     return {"leaves": leaves, "truncated": truncated}
 
 
+def _smgen_sched(built, case, op):
+    """SMGen under timer schedules: the search's random source is a seeded counter; a fake threading.Timer is fired from a
+    second thread right before the k-th draw (k = None: never).  Returns the answers of every schedule."""
+    import random as _random
+    import threading
+    import ir
+    import sweetpea as sp
+    from sweetpea._internal.sampling_strategy import scattered_map_core as smc
+    runs = []
+    real_timer, real_random = smc.threading.Timer, smc.random
+
+    def one(fire_at, seed):
+        st = {"draws": 0, "timer": None, "fired": False, "thread_exc": None, "cancelled_before_fire": False}
+        rnd = _random.Random(seed)
+
+        class FakeTimer:
+            def __init__(self, interval, function, args=None, kwargs=None):
+                self.function, self.args, self.kwargs = function, args or [], kwargs or {}
+                self.cancelled = False
+                st["timer"] = self
+
+            def start(self):
+                pass
+
+            def cancel(self):
+                self.cancelled = True
+
+        def fire():
+            t = st["timer"]
+            if t is None or t.cancelled:
+                st["cancelled_before_fire"] = True
+                return
+            st["fired"] = True
+
+            def body():
+                try:
+                    t.function(*t.args, **t.kwargs)
+                except BaseException as e:      # what threading would report through excepthook
+                    st["thread_exc"] = type(e).__name__
+            th = threading.Thread(target=body)
+            th.start()
+            th.join()
+
+        def rand():
+            if fire_at is not None and st["draws"] == fire_at and not st["fired"] and not st["cancelled_before_fire"]:
+                fire()
+            st["draws"] += 1
+            return rnd.random()
+
+        class FakeThreading:
+            Timer = FakeTimer
+        smc.threading = FakeThreading
+        smc.random = rand
+        try:
+            with ir.quiet():
+                exps = sp.synthesize_trials(built.block, op.get("n", 2), sp.SMGen)
+            out = {"status": "returned", "exps": [ir.encode_experiment(case, e) for e in exps]}
+        except OpTimeout:
+            raise
+        except BaseException as e:
+            out = {"status": "raised", "exc": type(e).__name__, "msg": str(e)[:200]}
+        finally:
+            smc.threading = threading
+            smc.random = real_random
+        out.update(fire_at=fire_at, draws=st["draws"], fired=st["fired"], thread_exc=st["thread_exc"])
+        return out
+
+    base = one(None, op.get("seed", 0))
+    runs.append(base)
+    if base["status"] == "returned":
+        D = max(base["draws"], 1)
+        for frac in op.get("schedule", []):          # schedule points produced by TLC: j of STEPS
+            runs.append(one(int(frac[0] * D // max(frac[1], 1)), op.get("seed", 0)))
+    return {"runs": runs}
+
+
 def _output(built, case, op):
     """run the output conversions and tabulations on synthesized and on given experiments"""
     import ir
@@ -313,6 +389,10 @@ def exec_ops(case, ops, op_timeout=60, emit=None):
                     signal.alarm(0)
                     rec["status"] = "returned"
                     rec["mismatch"] = {k: [str(x) for x in v] for k, v in r.items()}
+                elif kind == "smgen_sched":
+                    rec.update(_smgen_sched(built, case, op))
+                    signal.alarm(0)
+                    rec["status"] = "returned"
                 elif kind == "output":
                     rec.update(_output(built, case, op))
                     signal.alarm(0)
